@@ -418,3 +418,22 @@ def opt_catalogue():
 def json_copy(x):
     import json
     return json.loads(json.dumps(x))
+
+
+# ------------------------------------------------------------------ C16: budgets
+
+def budget_catalogue():
+    out = []
+    def g(name, rules, **kw):
+        out.append(grammar("bd_" + name, rules, **kw))
+    top = lambda x: act(seq(label("x", x), label("y", opt(any_()))), b_rec("s"))
+    g("seq", [rule("S", top(seq(lit("a"), opt(lit("b")), star(cls(ranges=[("a", "c")])))))])
+    g("cho", [rule("S", top(choice(seq(lit("a"), lit("b")), seq(lit("a"), lit("c")), plus(lit("a")))))])
+    g("pred", [rule("S", top(seq(and_(any_()), not_(lit("b")), star(any_()))))])
+    g("rules", [rule("S", top(seq(ref("A"), star(ref("B"))))), rule("A", choice(lit("a"), lit("b"))), rule("B", act(cls(ranges=[("a", "c")]), b_text()))])
+    # repetitions that can iterate without consuming input
+    g("emptystar", [rule("S", act(seq(star(lit("")), any_()), b_rec("s")))], nonterminating=True, budget_max=12)
+    g("andstar", [rule("S", act(seq(star(and_(lit("a"))), any_()), b_rec("s")))], nonterminating=True, budget_max=12)
+    g("optplus", [rule("S", act(seq(plus(opt(lit("a"))), any_()), b_rec("s")))], nonterminating=True, budget_max=12)
+    g("notstar", [rule("S", act(seq(star(not_(lit("b"))), any_()), b_rec("s")))], nonterminating=True, budget_max=12)
+    return out
